@@ -178,6 +178,67 @@ def check_inheritance(ctx, rep):
     return n
 
 
+def _closure_pipeline(prog, b, direct):
+    """the body extends its work list with `<popped defs>.filter(|d| visited.insert(d)).map(|d| self.<direct>(d.def_symbol()))`,
+    optionally followed by `.filter(|x| !x.is_empty())` and `.map(clone)`: nothing else selects"""
+    for bi, t in b.calls():
+        nm = strip_generics(mir.callee_name(t) or "")
+        if not nm.endswith("Extend>::extend") or len(t["args"]) < 2:
+            continue
+        chain = []
+        cur = mir.op_place(t["args"][1])
+        for _i in range(10):
+            if cur is None or cur["p"]:
+                break
+            sd = b.single_def(cur["l"])
+            if not sd:
+                break
+            if sd[1] != "term":
+                if sd[2]["k"] == "use":
+                    cur = mir.op_place(sd[2]["op"])
+                    continue
+                break
+            tt = b.term(sd[0])
+            an = strip_generics(mir.callee_name(tt) or "")
+            last = an.split("::")[-1]
+            if last in ("filter", "map", "filter_map", "take", "skip", "take_while", "skip_while", "step_by", "rev", "flat_map", "flatten", "chain"):
+                cid = _closure_id_of(b, tt["args"][1]) if len(tt["args"]) > 1 else None
+                clo = next((x for k, x in prog.bodies.items() if k == cid or x.rec.get("alias_of") == cid), None)
+                chain.append((last, clo))
+            elif last not in ("iter", "into_iter", "copied", "cloned", "by_ref"):
+                break
+            if not tt["args"]:
+                break
+            cur = mir.op_place(tt["args"][0])
+        chain.reverse()  # innermost first
+        if len(chain) < 2 or chain[0][0] != "filter" or chain[1][0] != "map":
+            continue
+        f0, m0 = chain[0][1], chain[1][1]
+        if f0 is None or m0 is None:
+            continue
+        r0 = G.describe_place(f0, {"l": 0, "p": []})
+        if not (r0.kind == "call" and strip_generics(r0.v).endswith("HashSet::insert")):
+            continue
+        r1 = G.describe_place(m0, {"l": 0, "p": []})
+        if not (r1.kind == "call" and strip_generics(r1.v).endswith("Namespace::" + direct) and len(r1.args) == 2 and "DefDict::def_symbol(" in repr(r1.args[1]) and re.search(r"def_symbol\(_2\**\)", repr(r1.args[1]))):
+            continue
+        ok = True
+        for kind, clo in chain[2:]:
+            if kind == "map" and clo is not None:
+                rr = G.describe_place(clo, {"l": 0, "p": []})
+                if not (rr.kind == "call" and strip_generics(rr.v).endswith(("Clone>::clone", "ToOwned>::to_owned", "::to_vec"))):
+                    ok = False
+            elif kind == "filter" and clo is not None:
+                rr = G.describe_place(clo, {"l": 0, "p": []})
+                if not (rr.kind == "unop" and rr.v == "Not" and rr.args and "is_empty(" in repr(rr.args[0])):
+                    ok = False
+            else:
+                ok = False
+        if ok:
+            return True
+    return False
+
+
 def _closure_loop(prog, rep, fn, direct):
     """work-list closure: seeded with direct(s); every def inserted for the first time has direct(def_symbol(def)) pushed;
     the result is the visited set"""
@@ -192,6 +253,19 @@ def _closure_loop(prog, rep, fn, direct):
     seeds = [c for c in d if c[3] == ["_1*", "_2*"]]
     steps = [c for c in d if len(c[3]) == 2 and c[3][0] == "_1*" and "DefDict::def_symbol(" in c[3][1]]
     ins = _find(cs, "HashSet::insert")
+    if len(seeds) == 1 and not steps and not ins and _closure_pipeline(prog, b, direct):
+        # `stack.extend(popped.iter().filter(|d| visited.insert(*d)).map(|d| direct(d.def_symbol())) ..)`: the adaptor chain runs the
+        # step for exactly the newly inserted defs and pushes every result (an emptiness filter aside) - step and completeness at once
+        _ok(rep, "%s:closure-step" % fn, b.where(), "seeded with %s(s); each newly visited def is expanded by %s(def) (adaptor chain)" % (direct, direct))
+        n += 1
+        _ok(rep, "%s:closure-complete" % fn, b.where(), "the chain extends the work list with the %s of every newly visited def (skipped only when that list is empty)" % direct)
+        n += 1
+        ret = repr(G.describe_place(b, {"l": 0, "p": []}))
+        if "HashSet" in ret and "Iterator::collect(" in ret:
+            _ok(rep, "%s:result-is-visited-set" % fn, b.where(), "the result is collected from the visited set")
+        else:
+            _bad(rep, "%s:result-is-visited-set" % fn, b.where(), "the result (%s) is not the visited set" % ret[:80])
+        return n
     if len(seeds) == 1 and len(steps) == 1 and len(ins) == 1:
         inserted = ins[0][3][1]
         stepped = re.search(r"def_symbol\((.*)\)$", steps[0][3][1]).group(1)
